@@ -75,6 +75,9 @@ class BuiltinMixin(object):
         if not args:
             yield st, TupleV([])
             return
+        if isinstance(args[0], Sym) and args[0].kind in ("shape", "tuplen"):
+            yield st, args[0]
+            return
         for st1, seq in self.as_sequence(st, args[0]):
             if isinstance(seq, list):
                 yield st1, TupleV(seq)
@@ -498,6 +501,8 @@ class BuiltinMixin(object):
                 return n in ("dict", "object")
             if isinstance(o, ArrState):
                 return n in ("ndarray", "object")
+            if isinstance(o, Obj) and o.cls.name == "SymDict":
+                return n in ("dict", "object")
             if isinstance(o, Obj):
                 return self.class_is_subclass(o.cls, n)
         if isinstance(v, (ClassV,)):
